@@ -408,3 +408,248 @@ Proof. intros. unfold set. apply length_set_nth. Qed.
 
 Lemma get_out_of_range : forall S p, (length S <= N.to_nat p)%nat -> get p S = empty_replica.
 Proof. intros. unfold get. apply nth_overflow. assumption. Qed.
+
+(* ====================================================================================== *)
+(* deletion records: keys, the invariant "no row at or below a held deletion record"       *)
+(* ====================================================================================== *)
+Lemma tomb_eqb_eq : forall a b, tomb_eqb a b = true <-> a = b.
+Proof.
+  intros [i m d] [i' m' d']. unfold tomb_eqb. cbn [t_id t_mdate t_ddate]. split.
+  - intros H. apply Bool.andb_true_iff in H. destruct H as [H H3]. apply Bool.andb_true_iff in H. destruct H as [H1 H2].
+    apply N.eqb_eq in H1. apply Z.eqb_eq in H2. apply Z.eqb_eq in H3. congruence.
+  - intros H. inversion H. subst. rewrite N.eqb_refl, !Z.eqb_refl. reflexivity.
+Qed.
+Lemma row_eqb_eq : forall a b, row_eqb a b = true <-> a = b.
+Proof.
+  intros [i m s] [i' m' s']. unfold row_eqb. cbn [n_id n_mdate n_sig]. split.
+  - intros H. apply Bool.andb_true_iff in H. destruct H as [H H3]. apply Bool.andb_true_iff in H. destruct H as [H1 H2].
+    apply N.eqb_eq in H1. apply Z.eqb_eq in H2. apply N.eqb_eq in H3. congruence.
+  - intros H. inversion H. subst. rewrite !N.eqb_refl, Z.eqb_refl. reflexivity.
+Qed.
+Lemma has_tomb_in : forall l t, has_tomb l t = true <-> In t l.
+Proof.
+  intros l t. unfold has_tomb. rewrite existsb_exists. split.
+  - intros [u [Hin E]]. apply tomb_eqb_eq in E. subst. exact Hin.
+  - intros H. exists t. split; [exact H|apply tomb_eqb_eq; reflexivity].
+Qed.
+Lemma has_row_in : forall l n, has_row l n = true <-> In n l.
+Proof.
+  intros l n. unfold has_row. rewrite existsb_exists. split.
+  - intros [u [Hin E]]. apply row_eqb_eq in E. subst. exact Hin.
+  - intros H. exists n. split; [exact H|apply row_eqb_eq; reflexivity].
+Qed.
+
+Lemma list_eqb_eq : forall {A} (eqb : A -> A -> bool), (forall a b, eqb a b = true <-> a = b) ->
+  forall l1 l2, list_eqb eqb l1 l2 = true -> l1 = l2.
+Proof.
+  intros A eqb H. induction l1 as [|x l1 IH]; intros [|y l2] E; cbn [list_eqb] in E; try discriminate; [reflexivity|].
+  apply Bool.andb_true_iff in E. destruct E as [E1 E2]. apply H in E1. subst. f_equal. apply IH. exact E2.
+Qed.
+Lemma replica_eqb_eq : forall a b, replica_eqb a b = true -> a = b.
+Proof.
+  intros [na ta] [nb tb] H. unfold replica_eqb in H. cbn [nodes tombs] in H.
+  apply Bool.andb_true_iff in H. destruct H as [H1 H2].
+  apply (list_eqb_eq row_eqb row_eqb_eq) in H1. apply (list_eqb_eq tomb_eqb tomb_eqb_eq) in H2. congruence.
+Qed.
+
+Definition keys_unique (l : list tomb) : Prop := forall a b, In a l -> In b l -> same_key a b = true -> a = b.
+
+Lemma same_key_sym' : forall a b, same_key a b = same_key b a.
+Proof. intros a b. unfold same_key. rewrite (N.eqb_sym (t_id a)), (Z.eqb_sym (t_ddate a)). reflexivity. Qed.
+
+Lemma in_tomb_put : forall l t u, In u (tomb_put l t) -> u = t \/ In u l.
+Proof.
+  intros l t u H. unfold tomb_put in H. destruct (has_tomb l t); [right; exact H|].
+  destruct H as [H|H]; [left; auto|right]. apply filter_In in H. tauto.
+Qed.
+Lemma tomb_put_in : forall l t, In t (tomb_put l t).
+Proof.
+  intros l t. unfold tomb_put. destruct (has_tomb l t) eqn:E; [apply has_tomb_in; exact E|left; reflexivity].
+Qed.
+Lemma tomb_put_keep : forall l t u, In u l -> same_key u t = false -> In u (tomb_put l t).
+Proof.
+  intros l t u H K. unfold tomb_put. destruct (has_tomb l t); [exact H|]. right. apply filter_In. rewrite K. auto.
+Qed.
+Lemma keys_unique_put : forall l t, keys_unique l -> keys_unique (tomb_put l t).
+Proof.
+  intros l t H. unfold tomb_put. destruct (has_tomb l t); [exact H|].
+  intros a b [<-|Ha] [<-|Hb] K; try reflexivity.
+  - apply filter_In in Hb. destruct Hb as [_ Hb]. rewrite same_key_sym' in K. rewrite K in Hb. discriminate.
+  - apply filter_In in Ha. destruct Ha as [_ Ha]. rewrite K in Ha. discriminate.
+  - apply filter_In in Ha. apply filter_In in Hb. apply H; tauto.
+Qed.
+
+Lemma tombs_fold_apply : forall ts r, tombs (fold_left apply_tomb ts r) = fold_left tomb_put ts (tombs r).
+Proof. induction ts as [|t ts IH]; intros r; cbn [fold_left]; [reflexivity|]. rewrite IH. reflexivity. Qed.
+
+Lemma keys_unique_fold : forall ts l, keys_unique l -> keys_unique (fold_left tomb_put ts l).
+Proof. induction ts as [|t ts IH]; intros l H; cbn [fold_left]; [exact H|]. apply IH. apply keys_unique_put. exact H. Qed.
+
+(* applying records of a source with unique keys: a record of the source that is applied, or already
+   held, is held afterwards *)
+Lemma fold_put_has : forall src ts l t, keys_unique src -> (forall u, In u ts -> In u src) -> In t src ->
+  In t ts \/ In t l -> In t (fold_left tomb_put ts l).
+Proof.
+  intros src ts. induction ts as [|u ts IH]; intros l t Hk Hs Ht H; cbn [fold_left].
+  - destruct H as [[]|H]. exact H.
+  - apply IH; try assumption.
+    + intros v Hv. apply Hs. right. exact Hv.
+    + destruct H as [[->|H]|H].
+      * right. apply tomb_put_in.
+      * left. exact H.
+      * right. destruct (same_key t u) eqn:K.
+        -- assert (t = u) by (apply Hk; [exact Ht|apply Hs; left; reflexivity|exact K]). subst. apply tomb_put_in.
+        -- apply tomb_put_keep; assumption.
+Qed.
+
+(* ---------- the invariant ---------- *)
+Definition inv_replica (r : replica) : Prop :=
+  forall n t, In n (nodes r) -> In t (tombs r) -> t_id t = n_id n -> t_mdate t < n_mdate n.
+
+Lemma below_tomb_false : forall ts n, below_tomb ts n = false ->
+  forall t, In t ts -> t_id t = n_id n -> t_mdate t < n_mdate n.
+Proof.
+  intros ts n H t Hin Hid. unfold below_tomb in H.
+  destruct (N.eqb (t_id t) (n_id n) && (n_mdate n <=? t_mdate t))%bool eqn:E.
+  - assert (existsb (fun t0 => (N.eqb (t_id t0) (n_id n) && (n_mdate n <=? t_mdate t0))%bool) ts = true)
+      by (apply existsb_exists; exists t; split; assumption). congruence.
+  - rewrite Hid, N.eqb_refl in E. cbn [andb] in E. apply Z.leb_gt in E. exact E.
+Qed.
+Lemma below_tomb_true : forall ts n, below_tomb ts n = true ->
+  exists t, In t ts /\ t_id t = n_id n /\ n_mdate n <= t_mdate t.
+Proof.
+  intros ts n H. unfold below_tomb in H. apply existsb_exists in H. destruct H as [t [Hin E]].
+  apply Bool.andb_true_iff in E. destruct E as [E1 E2]. apply N.eqb_eq in E1. apply Z.leb_le in E2. eauto.
+Qed.
+
+Lemma in_fold_put : forall f d n, In n (fold_left put_node f d) -> In n f \/ In n d.
+Proof.
+  induction f as [|a f IH]; intros d n H; cbn [fold_left] in H; [right; exact H|].
+  apply IH in H. destruct H as [H|H]; [left; right; exact H|].
+  unfold put_node in H. destruct H as [H|H]; [left; left; exact H|].
+  apply in_remove_node in H. right. tauto.
+Qed.
+
+Lemma inv_apply_tomb : forall r t, inv_replica r -> inv_replica (apply_tomb r t).
+Proof.
+  intros r t H n u Hn Hu Hid. unfold apply_tomb in *. cbn [nodes tombs] in *.
+  apply filter_In in Hn. destruct Hn as [Hn Hc].
+  apply in_tomb_put in Hu. destruct Hu as [->|Hu]; [|apply (H n u Hn Hu Hid)].
+  apply Bool.negb_true_iff in Hc. unfold covered in Hc. rewrite <- Hid, N.eqb_refl in Hc. cbn [andb] in Hc.
+  apply Z.leb_gt in Hc. exact Hc.
+Qed.
+Lemma inv_fold_apply_tomb : forall ts r, inv_replica r -> inv_replica (fold_left apply_tomb ts r).
+Proof. induction ts as [|t ts IH]; intros r H; cbn [fold_left]; [exact H|]. apply IH. apply inv_apply_tomb. exact H. Qed.
+
+Lemma nodup_ids_apply_tomb : forall r t, nodup_ids (nodes r) -> nodup_ids (nodes (apply_tomb r t)).
+Proof. intros. unfold apply_tomb. cbn [nodes]. apply nodup_ids_filter. assumption. Qed.
+Lemma nodup_ids_fold_apply : forall ts r, nodup_ids (nodes r) -> nodup_ids (nodes (fold_left apply_tomb ts r)).
+Proof. induction ts as [|t ts IH]; intros r H; cbn [fold_left]; [exact H|]. apply IH. apply nodup_ids_apply_tomb. exact H. Qed.
+
+Record good (r : replica) : Prop := { g_ids : nodup_ids (nodes r); g_keys : keys_unique (tombs r); g_inv : inv_replica r }.
+
+Lemma good_sync_day : forall src dst cnt d, good dst -> good (fst (sync_day src (dst, cnt) d)).
+Proof.
+  intros src dst cnt d [G1 G2 G3]. unfold sync_day. cbn [fst].
+  set (dst1 := fold_left apply_tomb (tombs_on_day d (tombs src)) dst).
+  assert (H1 : inv_replica dst1) by (apply inv_fold_apply_tomb; exact G3).
+  constructor; cbn [nodes tombs].
+  - apply nodup_ids_fold_put. apply nodup_ids_fold_apply. exact G1.
+  - unfold dst1. rewrite tombs_fold_apply. apply keys_unique_fold. exact G2.
+  - intros n t Hn Ht Hid. apply in_fold_put in Hn. destruct Hn as [Hn|Hn]; [|apply (H1 n t Hn Ht Hid)].
+    apply filter_In in Hn. destruct Hn as [_ Hf]. apply Bool.andb_true_iff in Hf. destruct Hf as [_ Hb].
+    apply Bool.negb_true_iff in Hb. apply (below_tomb_false _ _ Hb t Ht Hid).
+Qed.
+
+Lemma good_pull : forall src days acc, good (fst acc) -> good (fst (fold_left (sync_day src) days acc)).
+Proof.
+  induction days as [|d days IH]; intros acc H; cbn [fold_left]; [exact H|].
+  apply IH. destruct acc as [dst cnt]. apply good_sync_day. exact H.
+Qed.
+
+Definition good_sys (S : sys) : Prop := forall p, good (get p S).
+
+Lemma good_set : forall S p r, good_sys S -> good r -> good_sys (set p r S).
+Proof.
+  intros S p r H Hr q. rewrite get_set. destruct (N.eqb q p && Nat.ltb (N.to_nat p) (length S))%bool; [exact Hr|apply H].
+Qed.
+
+Lemma mentions_false : forall x r, mentions x r = false -> forall t, In t (tombs r) -> t_id t <> x.
+Proof.
+  intros x r H t Hin Hid. unfold mentions in H. apply Bool.orb_false_iff in H. destruct H as [_ H].
+  assert (existsb (fun t0 => N.eqb (t_id t0) x) (tombs r) = true)
+    by (apply existsb_exists; exists t; split; [exact Hin|apply N.eqb_eq; exact Hid]).
+  congruence.
+Qed.
+
+(* every step inside the envelope preserves: one row per id, one record per key, no row at or below a
+   held deletion record *)
+Lemma step_good : forall S o, good_sys S -> snd (step S o) = false -> good_sys (fst (fst (step S o))).
+Proof.
+  intros S o H Hg. destruct o as [p x t sg|p x t sg|p x t|d s days]; cbn [step] in *.
+  - cbn [fst snd] in *. apply good_set; [exact H|]. destruct (H p) as [G1 G2 G3]. constructor; cbn [nodes tombs].
+    + apply nodup_ids_put. exact G1.
+    + exact G2.
+    + intros n u Hn Hu Hid. unfold put_node in Hn. destruct Hn as [<-|Hn].
+      * cbn [n_id] in Hid. exfalso. apply (mentions_false _ _ Hg u Hu Hid).
+      * apply in_remove_node in Hn. apply (G3 n u (proj1 Hn) Hu Hid).
+  - destruct (find_node x (nodes (get p S))) as [e|] eqn:F; cbn [fst snd] in *; [|exact H].
+    apply good_set; [exact H|]. destruct (H p) as [G1 G2 G3].
+    apply find_node_some in F. destruct F as [Fin Fid]. constructor; cbn [nodes tombs].
+    + apply nodup_ids_put. exact G1.
+    + exact G2.
+    + intros n u Hn Hu Hid. unfold put_node in Hn. destruct Hn as [<-|Hn].
+      * cbn [n_id n_mdate] in *. apply Z.ltb_ge in Hg.
+        assert (t_mdate u < n_mdate e) by (apply (G3 e u Fin Hu); congruence). lia.
+      * apply in_remove_node in Hn. apply (G3 n u (proj1 Hn) Hu Hid).
+  - destruct (find_node x (nodes (get p S))) as [e|] eqn:F; cbn [fst snd] in *; [|exact H].
+    apply good_set; [exact H|]. destruct (H p) as [G1 G2 G3]. constructor; cbn [nodes tombs].
+    + apply nodup_ids_remove. exact G1.
+    + apply keys_unique_put. exact G2.
+    + intros n u Hn Hu Hid. apply in_remove_node in Hn. destruct Hn as [Hn Hne].
+      apply in_tomb_put in Hu. destruct Hu as [->|Hu]; [cbn [t_id] in Hid; congruence|].
+      apply (G3 n u Hn Hu Hid).
+  - unfold pull_replica.
+    pose proof (good_pull (get s S) days (get d S, 0%N) (H d)) as HG.
+    destruct (fold_left (sync_day (get s S)) days (get d S, 0%N)) as [r cnt]. cbn [fst] in *.
+    apply good_set; assumption.
+Qed.
+
+Lemma run_good : forall ops S, good_sys S -> run_guard S ops = false -> good_sys (run_sys S ops).
+Proof.
+  induction ops as [|o ops IH]; intros S H Hg; cbn [run_sys run_guard] in *; [exact H|].
+  apply Bool.orb_false_iff in Hg. destruct Hg as [G1 G2]. apply IH; [|exact G2]. apply step_good; assumption.
+Qed.
+
+Lemma run_good_trace : forall ops S, good_sys S -> run_guard S ops = false -> Forall good_sys (run_trace S ops).
+Proof.
+  induction ops as [|o ops IH]; intros S H Hg; cbn [run_trace run_guard] in *; [constructor|].
+  apply Bool.orb_false_iff in Hg. destruct Hg as [G1 G2].
+  pose proof (step_good S o H G1) as HS. constructor; [exact HS|]. apply IH; assumption.
+Qed.
+
+Lemma init_good : forall n, good_sys (init_sys n).
+Proof.
+  intros n p. unfold get, init_sys.
+  assert (E : nth (N.to_nat p) (repeat empty_replica (N.to_nat n)) empty_replica = empty_replica).
+  { destruct (nth_in_or_default (N.to_nat p) (repeat empty_replica (N.to_nat n)) empty_replica) as [H|H];
+      [apply repeat_spec in H|]; exact H. }
+  rewrite E. constructor; cbn.
+  - constructor.
+  - intros a b [].
+  - intros k t [].
+Qed.
+
+Lemma run_guard_app : forall a b S, run_guard S (a ++ b) = (run_guard S a || run_guard (run_sys S a) b)%bool.
+Proof.
+  induction a as [|o a IH]; intros b S; cbn [app run_guard run_sys]; [reflexivity|].
+  rewrite IH, Bool.orb_assoc. reflexivity.
+Qed.
+Lemma run_sys_app : forall a b S, run_sys S (a ++ b) = run_sys (run_sys S a) b.
+Proof. induction a as [|o a IH]; intros b S; cbn [app run_sys]; [reflexivity|apply IH]. Qed.
+Lemma run_complete_app : forall a b S,
+  run_complete S (a ++ b) = (run_complete S a && run_complete (run_sys S a) b)%bool.
+Proof.
+  induction a as [|o a IH]; intros b S; cbn [app run_complete run_sys]; [reflexivity|].
+  rewrite IH. rewrite Bool.andb_assoc. reflexivity.
+Qed.
